@@ -1,4 +1,4 @@
-HOOK_COMMITS = []
+HOOK_COMMITS = ["233a917 parser: optional verif-hooks feature recording doc-link position arithmetic"]
 
 CODEC_NOTE = ("Trusted: Lean kernel + axioms propext/Classical.choice/Quot.sound; tools/extract.py; the differential harness. "
               "Modelled rather than verified: HashMap/HashSet as lists in wire order, BytesMut as byte lists, floats as bit patterns, "
@@ -289,8 +289,26 @@ CLAIMS["C15"] = {
     "design_ref": "DESIGN.md section 6 C15, section 10",
 }
 
+CLAIMS["C17"] = {
+    "category": "other",
+    "text": "Partial: proof for the index arithmetic the repository owns, differential and oracle runs for everything else. "
+            "Machine-checked (Lean 4, for ALL doc comments and positions) about an executable model of BrokenDocLink::linecol_to_index / "
+            "sourcepos_to_span with usize wrap-around as an explicit outcome: a column >= 1 never wraps and column 0 is the only way to "
+            "(doc_link_offset_never_wraps, wrap_needs_column_zero); a returned offset lies inside its doc string on a character boundary "
+            "(doc_link_offset_in_bounds); ordered positions give an ordered span, also for the fallback (doc_link_span_is_ordered, "
+            "sourcepos_span_is_a_range) - so the spans handed to the renderer can be sliced. The grammar is the PEG model of C18, a total "
+            "function compared with the real parser (accept / reject, AST) on every input. Absence of panics and determinism of the rest "
+            "(pest, validation, comrak, annotate-snippets rendering, formatter, code generator) is NOT proved: it is exercised by running "
+            "the whole pipeline twice under catch_unwind on token soups, mutations of all repository schemas and generated schemas with "
+            "adversarial doc comments, with resolvable, cyclic, broken and missing imports.",
+    "note": "Trusted: Lean kernel (+propext, Classical.choice, Quot.sound), the harness, the hook (parser feature verif-hooks: records "
+            "inputs and result of linecol_to_index, adds no behaviour). Assumed of comrak and flagged when violated: columns >= 1. A total "
+            "Lean function says nothing about panics of the Rust code paths it does not model; that part of the property is sampled, not "
+            "proved. Observed and not counted as a violation: the schema a cross-schema diagnostic names first follows hash-map iteration "
+            "order and differs between runs (DESIGN.md 10.4).",
+    "design_ref": "DESIGN.md section 6 C17, section 10",
+    "technique": "Lean 4 theorems about an executable model of the position arithmetic + differential correspondence of the grammar model + implementation-only panic / determinism oracles",
+}
+
 NOT_APPLICABLE = {
-    "C17": "not applicable to this technique as the code stands: absence of panics in the pest-generated parser, validator, diagnostic "
-           "renderer and formatter is a statement about Rust code paths (unwrap, slicing, arithmetic); a total Lean function proves "
-           "nothing about them and an explicit-failure model would need pest's parse trees for the whole grammar. DESIGN.md 10.7",
 }
